@@ -235,6 +235,10 @@ def _replay_uc(stem, vals):
                 msgs.append('parse(%r) = %r, ordinary precedence gives %r' % (s, got, want))
         if stem.startswith('parse.precedence') and '[' in stem:
             expr = stem[stem.index('[') + 1:stem.rindex(']')]
+            if stem.startswith('parse.precedence.seeded['):
+                seed_ = int(os.environ.get('VERIF_SEED', '0') or 0)
+                tier_ = os.environ.get('VERIF_TIER', 'quick')
+                expr = gen_expressions(_random.Random(1000 + seed_), 400 if tier_ != 'thorough' else 4000)[int(expr)]
             try:
                 got = uc.parse(expr)
                 want = float(spec_eval_float(expr, uc.unit))
@@ -304,17 +308,18 @@ def parse_precedence(E, L):
     n = 400 if E.tier == 'quick' else 4000
     fixed = ['kg*m/s', 'kg/s*m', 'm/s/s', 'm/s^2*kg', 'angstrom*angstrom/fs*g/mol', '1e-21/c0*C*m', '2*Ry*aBohr/hbar', 'kcal/(mol*angstrom)', 'Pa*s/10', 'pg/(um*us^2)',
              '1e-18*g*nm^2/ns^2', '10*c0*C*cm', 'm^2/s^2', '(m/s)^2', 'm^-1', ' eV / angstrom ^ 3 ', '((m))', 'm/(s*(kg/N))']
-    exprs = fixed + gen_expressions(rnd, n)
+    generated = gen_expressions(rnd, n)
     E.side_enabled = False      # unit values are positive (assumed at reset); numeric literals are non-zero by construction
-    for s in exprs:
+    # obligation names: the fixed expressions by their text; the seed-selected ones by their position (the text depends on VERIF_SEED and is recorded in the notes / replay)
+    for nm, s in [('parse.precedence[%s]' % s, s) for s in fixed] + [('parse.precedence.seeded[%d]' % k, s) for k, s in enumerate(generated)]:
         try:
             got = uc.parse(s)
         except Exception as e:
-            E.prove('parse.accepts[%s]' % s, False)
+            E.prove(nm.replace('precedence', 'accepts'), False)
             E.note('parse(%r) raised %s: %s' % (s, type(e).__name__, e))
             continue
         want = spec_eval(s, uc.unit)
-        E.prove('parse.precedence[%s]' % s, got == want)
+        E.prove(nm, got == want)
     for bad in ('(m', 'm)', 'm*/s', 'm $ s'):
         try:
             uc.parse(bad)
